@@ -65,7 +65,18 @@ check('C12', 'model_checking',
       'TLA+ model checking (TLC) + imposing TLC behaviours on real threads + preemption-bounded schedule enumeration with trace validation',
       'DESIGN.md 4/C12')
 
-PENDING = ['C01', 'C02', 'C03', 'C04', 'C05', 'C06', 'C07', 'C08', 'C11', 'C15', 'C16', 'C17', 'C18']
+check('C11', 'model_checking',
+      'SpyneDispatch.tla models the routing-table construction (one action per process_method call) and lookup; TLC checks '
+      'for every duplicate-free service list from a pool with adversarially similar names, an auxiliary service and custom '
+      'in-message/operation names that the table equals its functional definition, conflicts are refused, no order crashes, '
+      'the table is independent of the service order and the primary is first. Every such application is built as real '
+      'services (construction outcome compared) and every registered name and near miss x {unqualified, tns, other ns} is '
+      'sent as XML root tag, SOAP body child, JSON key, msgpack key, msgpack-rpc field and HttpRpc URL; per-function '
+      'counters must equal the handles. SpyneHttpPattern.tla gives the expected route of every (verb, host, path).',
+      'TLA+ model checking (TLC) + exhaustive replay of TLC-enumerated applications and lookups',
+      'DESIGN.md 4/C11')
+
+PENDING = ['C01', 'C02', 'C03', 'C04', 'C05', 'C06', 'C07', 'C08', 'C15', 'C16', 'C17', 'C18']
 
 def main():
     import importlib
